@@ -35,7 +35,15 @@ IMPORTS_SPEC = 'From PyRTL Require Import Netlist.Sem Netlist.WFDefs Netlist.Spe
 IMPORTS = ('From PyRTL Require Import Netlist.Sem Netlist.WFDefs Netlist.SpecHarness Pass.Lower '
            'Pass.LowerHarness.')
 COQ_TARGETS = ['theories/Netlist/SpecHarness.vo', 'theories/Pass/LowerHarness.vo']
-TRUSTED = ['Pass/Lower.v postcondition predicates (post_*: allowed op sets, concat arity <= 2, one-index '
+PROPS_FILES = ['theories/Props/C09.v', 'theories/Props/C09_bridge.v']
+TRUSTED = ['py/genfrag_C09.py: the gate right-hand sides (Gen/LowerRules.v) AND the guards / thresholds / split '
+           'arithmetic of two_way_concat, one_bit_selects, _direct_connect_outputs_pass, two_way_fanout, _make_tree '
+           '(Gen/LowerGuards.v) are regenerated from passes.py on every run; every other statement of those '
+           'functions is pinned by a textual skeleton template (any other edit = untranslatable = broken tie); '
+           'Props/C09_bridge.v identifies each generated guard with the one Pass/Lower.v uses',
+           'Pass/Lower.v: the control skeleton of net_transform and of the two graph edits (hand-written, tied '
+           'structurally and behaviourally on every case)',
+           'Pass/Lower.v postcondition predicates (post_*: allowed op sets, concat arity <= 2, one-index '
            'selects, no non-truncating w-net before an Output whose source has no other reader and an eligible (not @ / r) producer, fan-out <= 2) as the reading of the '
            'pass docstrings',
            'Netlist/Sanity.v sanity_block as the reading of Block.sanity_check (C10)']
@@ -637,11 +645,44 @@ def pass_sequences(ctx, rng, kind, i=0):
         pairs = rng.sample(pairs, 2)
         longer = [rng.choice(sandwiches), [rng.randint(1, 6) for _ in range(rng.randint(3, 4))]]
     else:
-        if not small:
-            pairs = rng.sample(pairs, 10)
-        longer = rng.sample(sandwiches, 6 if small else 3) + \
-            [[rng.randint(1, 6) for _ in range(rng.randint(3, 5))] for _ in range(3)]
+        pairs = rng.sample(pairs, 12 if small else 8)
+        longer = rng.sample(sandwiches, 4 if small else 3) + \
+            [[rng.randint(1, 6) for _ in range(rng.randint(3, 5))] for _ in range(2)]
     return singles + repeats + pairs + longer
+
+
+def robust_eval(ctx, exprs, imports, tag, shard, jobs):
+    """ctx.coq_eval, but a shard that fails for load / timeout reasons does not abort the run: after a
+    failure one expression is probed (twice) to tell a broken model from a transient failure, then the
+    list is re-evaluated by bisection, single expressions being retried up to three times"""
+    try:
+        return ctx.coq_eval(exprs, imports, tag=tag, shard=shard, jobs=jobs)
+    except Exception as first:
+        probe_err = None
+        for attempt in range(2):
+            try:
+                ctx.coq_eval(exprs[:1], imports, tag=tag + '_probe', shard=1, jobs=1)
+                probe_err = None
+                break
+            except Exception as e:
+                probe_err = e
+        if probe_err is not None:
+            raise first                      # nothing evaluates: the model itself is broken
+        ctx.count('coq_eval_retries', tag)
+
+        def go(lo, hi, depth):
+            part = exprs[lo:hi]
+            for attempt in range(1 if len(part) > 1 else 3):
+                try:
+                    return ctx.coq_eval(part, imports, tag='%s_r%d_%d' % (tag, depth, lo),
+                                        shard=max(1, min(shard, len(part))), jobs=jobs)
+                except Exception as e:
+                    err = e
+            if len(part) == 1:
+                raise err
+            mid = (lo + hi) // 2
+            return go(lo, mid, depth + 1) + go(mid, hi, depth + 1)
+        return go(0, len(exprs), 0)
 
 
 def run(ctx):
@@ -787,12 +828,12 @@ def run(ctx):
             ctx.count('memories', len(mems))
     model_ok = True
     try:
-        results = ctx.coq_eval(exprs, IMPORTS, tag='c09', shard=3 if quick else 8, jobs=16)
-        extra_res = ctx.coq_eval(extra_exprs, IMPORTS, tag='c09real', shard=12, jobs=14) if extra_exprs else []
+        results = robust_eval(ctx, exprs, IMPORTS, 'c09', 3 if quick else 8, 16)
+        extra_res = robust_eval(ctx, extra_exprs, IMPORTS, 'c09real', 12, 14) if extra_exprs else []
     except Exception as e:      # the model no longer builds (e.g. an untranslatable rule): the SEARCH must still run
         model_ok = False
         ctx.model_mismatch('Pass/Lower.v model could not be evaluated: %s' % str(e)[-500:], {})
-        spec_only = ctx.coq_eval(spec_exprs, IMPORTS_SPEC, tag='c09spec', shard=6 if quick else 12, jobs=16)
+        spec_only = robust_eval(ctx, spec_exprs, IMPORTS_SPEC, 'c09spec', 6 if quick else 12, 16)
         results = [[[[1] * len(HYPS)] + sr] for sr in spec_only]
         extra_res, extra_ref = [], []
     extra_by = {}
